@@ -2,6 +2,8 @@
 //! *between* the critical sections of the loader single-flight protocol, so that a check
 //! can drive the real code under chosen thread interleavings. With no hook installed
 //! every function here is a no-op.
+//! `point` is also called between the critical sections of the sync insert / remove /
+//! compute / entry / maintenance paths (handles/sync.rs, entry_api.rs, task/janitor.rs).
 
 use std::sync::Arc;
 use std::thread::ThreadId;
